@@ -16,6 +16,7 @@ package main
 import (
 	"errors"
 	"fmt"
+	"hash/fnv"
 	"os"
 	"os/exec"
 	"sort"
@@ -68,7 +69,8 @@ var c09Rank = [nStages]int{
 // ---- recording plugins ----------------------------------------------------------------------
 
 type c09Trace struct {
-	mu  sync.Mutex
+	mu   sync.Mutex
+	hold bool // caller side: a PostWriteCall hook lingers until a reply-stage hook fires or 15 ms pass
 	hdr []c09Ev // first preReadHeader invocation of each plugin instance (idle read loop start)
 	ev  []c09Ev // everything else, in real order; handler invocations have stage -1
 }
@@ -112,7 +114,23 @@ func (r *rec) fire(stage int) *erpc.Status {
 	} else {
 		r.tr.ev = append(r.tr.ev, c09Ev{r.name, stage})
 	}
+	hold := r.tr.hold && stage == sPostWriteCall
 	r.tr.mu.Unlock()
+	if hold {
+		// a slow post-write hook (seed C09-D): the reply of this very call may be on its way; its
+		// hooks must not fire before the PostWriteCall stage of the exchange is over. On code where the
+		// caller is shielded from its own reply until then, this simply lingers for the full 15 ms.
+		waitUntil(15*time.Millisecond, func() bool {
+			r.tr.mu.Lock()
+			defer r.tr.mu.Unlock()
+			for _, e := range r.tr.ev {
+				if e.stage >= 0 && c09Rank[e.stage] >= 8 {
+					return true
+				}
+			}
+			return false
+		})
+	}
 	if r.veto[stage] {
 		return erpc.NewStatus(c09Code(r.name, stage), "veto", "")
 	}
@@ -812,6 +830,7 @@ func c09CheckOrder(evs []c09Ev, chain []c09Pl) (string, string, c09Ev) {
 
 type c09Res struct {
 	a0, aw, ar, b []c09Ev
+	areal         []c09Ev // the caller side's events in the order they really fired
 	wr            bool
 	st            int32
 	disc          bool
@@ -830,8 +849,8 @@ func c09VetoMap(s string) (map[[2]int]bool, error) {
 	return m, nil
 }
 
-func c09Exchange(kind string, bops, aops []c09Op, route int, hs int32, vb, va map[[2]int]bool) (res c09Res) {
-	trA, trB := &c09Trace{}, &c09Trace{}
+func c09Exchange(kind string, bops, aops []c09Op, route int, hs int32, vb, va map[[2]int]bool, hold bool) (res c09Res) {
+	trA, trB := &c09Trace{hold: hold}, &c09Trace{}
 	rtB, rtA := &c09Routes{}, &c09Routes{}
 	c09cur = &c09Cur{tr: trB, rt: rtB, hs: hs}
 	srv := erpc.NewPeer(erpc.PeerConfig{})
@@ -885,6 +904,7 @@ func c09Exchange(kind string, bops, aops []c09Op, route int, hs int32, vb, va ma
 	trA.mu.Lock()
 	trB.mu.Lock()
 	res.a0 = append([]c09Ev(nil), trA.hdr...)
+	res.areal = append([]c09Ev(nil), trA.ev...)
 	for _, e := range trA.ev {
 		if e.stage == sPreWriteCall || e.stage == sPostWriteCall || e.stage == sPreWritePush || e.stage == sPostWritePush {
 			res.aw = append(res.aw, e)
@@ -945,7 +965,13 @@ func c09Run(line string, out *hx.Out) (obs string, nontrivial bool) {
 		return "bad-case", false
 	}
 
-	res := c09Exchange(kind, bops, aops, route, int32(hs), vb, va)
+	hold := false
+	if kind == "c09call" {
+		h := fnv.New32a()
+		h.Write([]byte(line))
+		hold = h.Sum32()%4 == 0
+	}
+	res := c09Exchange(kind, bops, aops, route, int32(hs), vb, va, hold)
 	if res.timeout {
 		out.Violate(line, "no-hang", "the exchange did not complete within 10 s", "c09:hang")
 		return "timeout", true
@@ -1029,6 +1055,26 @@ func c09Run(line string, out *hx.Out) (obs string, nontrivial bool) {
 	}
 	if w, d, at := c09CheckOrder(res.b, chainB); w != "" {
 		bad(spB, w, "peer B: "+d, res.b, at)
+	}
+	// (1b) stage order along one exchange in REAL time on the calling side: the write-side stages of
+	// the call (PreWriteCall, PostWriteCall) are over before any hook of its reply fires
+	if kind == "c09call" {
+		if hold {
+			out.Count("slow-postwritecall")
+		}
+		replySeen := false
+		for _, e := range res.areal {
+			if e.stage < 0 {
+				continue
+			}
+			if c09Rank[e.stage] >= 8 {
+				replySeen = true
+			} else if c09Rank[e.stage] <= 1 && replySeen {
+				out.Violate(line, "stage-order-real-time", fmt.Sprintf("peer A: hook %s fired after a hook of the reply to the same call; real order %s", e, c09EvStr(res.areal)),
+					"c09:reply-hook-before-postwritecall")
+				break
+			}
+		}
 	}
 	aAll := append(append([]c09Ev(nil), res.aw...), res.ar...)
 	if w, d, at := c09CheckOrder(aAll, globalA); w != "" {
